@@ -393,7 +393,13 @@ func checkConv(p *Prog, r *Report, pkg, prop string) {
 	ruleMergeCompleteness(p, r, "R-FC", map[string]bool{pkg: true})
 	r.rule("R-G", "Decision sites of the planner that the property's mechanisms name (unique-name generation; for Linux the route delete/replace decisions) keep exactly their audited controlling conditions (tables/guards.tsv).")
 	ruleGuardTable(p, r, "R-G", prop)
+	if pkg == "panos" || pkg == "nsx" {
+		r.rule("R-M", "Mark discipline: every store into a planner mark (fields needed / nameOnDevice: which device object is kept, which target object is already on the device under which name) in this package lies at a function+site whose controlling conditions are audited rows of tables/guards.tsv (compared by R-G); a mark store at a new place is unaudited planner state.")
+		floor := map[string]int{"panos": 14, "nsx": 6}[pkg]
+		ruleMarkDiscipline(p, r, "R-M", prop, pkg, []string{".needed", ".nameOnDevice"}, floor)
+	}
 	ruleCommandsOnlyGrow(p, r, pkg)
+	ruleStickyState(p, r, prop, map[string]bool{pkg: true}, map[string]int{"panos": 1, "nsx": 1, "linux": 2}[pkg])
 	if pkg == "panos" {
 		rulePanosEscaped(p, r)
 		r.rule("R08.e", "PAN-OS commands are well-formed URLs (see C08).")
